@@ -1514,3 +1514,32 @@ def repeated_key_map_rule(ctx, rid, floor=1):
                             ctx.ob(rid, f'{m.name}.{fn.name}:{ast.unparse(s_.func.value.func.value)}[key]', True, '', m.rel, s_.lineno)
     if n == 0:
         raise AnalysisError(f'{rid}: no per-key store of operations found in the noise-model packages')
+
+
+def named_initial_state_rule(ctx, rid):
+    """An initial state that names its qubits is expressed in the simulation's qubit order before it becomes a bare vector."""
+    repo = ctx.repo
+    ctx.rule(rid, 'named initial states follow the qubit order: SimulatorBase._create_simulation_state converts a cirq.ProductState (which says which qubit is in which state) with '
+             'state_vector(qubit_order=<built from its qubits argument>) under an isinstance test, before any _create_partial_simulation_state call - the state factories receive no '
+             'qubits and would read the vector of the sorted order in the order of the simulation', floor=1, style='MPT')
+    sb = repo.cls('cirq.sim.simulator_base.SimulatorBase')
+    fn = sb.methods.get('_create_simulation_state')
+    if fn is None:
+        raise AnalysisError('SimulatorBase._create_simulation_state vanished')
+    params = [a.arg for a in fn.args.args]
+    st, qb = params[1], params[2]
+    conv = None
+    for i_ in ast.walk(fn):
+        if isinstance(i_, ast.If) and any(isinstance(c, ast.Call) and call_name(c) == 'isinstance' and 'ProductState' in ast.unparse(c) for c in ast.walk(i_.test)):
+            for a in i_.body:
+                if isinstance(a, ast.Assign) and isinstance(a.targets[0], ast.Name) and a.targets[0].id == st and isinstance(a.value, ast.Call) \
+                        and isinstance(a.value.func, ast.Attribute) and a.value.func.attr == 'state_vector' \
+                        and any(isinstance(x, ast.Name) and x.id == qb for k in list(a.value.args) + [kw.value for kw in a.value.keywords] for x in ast.walk(k)):
+                    conv = i_
+    uses = [c for c in ast.walk(fn) if isinstance(c, ast.Call) and (call_name(c) or '').endswith('_create_partial_simulation_state')]
+    if not uses:
+        raise AnalysisError('_create_simulation_state: no _create_partial_simulation_state call')
+    ok = conv is not None and all(conv.lineno < c.lineno for c in uses)
+    ctx.ob(rid, f'{sb.qual}._create_simulation_state:product-state-order', ok, '' if ok else
+           f'a ProductState passed as `{st}` reaches the state factories without being written in the order of `{qb}`: with a qubit_order that is not the sorted one every qubit starts in '
+           'another qubit\'s state', sb.mod.rel, fn.lineno)
